@@ -622,8 +622,8 @@ func (p *Prog) collapseForwarders(tops []*ssa.Function) {
 			continue
 		}
 		g := call.Common().StaticCallee()
-		if nil == g || g == f || nil == g.Blocks || g.Pkg != f.Pkg || nil != g.Parent() || "" != g.Synthetic {
-			continue
+		if nil == g || g == f || nil == g.Blocks || !inModule(g) || nil != g.Parent() || "" != g.Synthetic {
+			continue /* (the newcomer may live in a package of its own) */
 		}
 		if _, gRef := refInfo[g.String()]; gRef {
 			continue
@@ -987,7 +987,23 @@ func (p *Prog) promoteParams(tops []*ssa.Function) {
 		case "main", "init":
 			continue
 		}
-		if ssa.PromoteStructParams(f, sites[f]) {
+		ptr := ssa.PromotePointerParams(f, sites[f])
+		/* A reference function which became the method of a bundle of its
+		own parameters. */
+		if _, isImg := renameImage[f]; isImg && nil != f.Signature.Recv() {
+			if ssa.PromotePointerReceiver(f, sites[f]) {
+				ptr = true
+			}
+		}
+		if ptr {
+			/* The fields are the function's own variables now. */
+			ssa.Relift(f)
+			ssa.LiftCells(f)
+			if "" != os.Getenv("CRS_FLATDEBUG") {
+				fmt.Fprintf(os.Stderr, "PROMOTED pointer-to-struct parameters of %s\n", f)
+			}
+		}
+		if ssa.PromoteStructParams(f, sites[f]) || ptr {
 			p.Promoted++
 			seen := map[*ssa.Function]bool{}
 			for _, ci := range sites[f] {
@@ -1000,6 +1016,9 @@ func (p *Prog) promoteParams(tops []*ssa.Function) {
 					ssa.SplitLocalStructs(top)
 					ssa.ForwardStructFields(top)
 				}
+			}
+			if ptr {
+				ssa.UnifyEqualParams(f, sites[f])
 			}
 			if "" != os.Getenv("CRS_FLATDEBUG") {
 				fmt.Fprintf(os.Stderr, "PROMOTED struct parameters of %s\n", f)
